@@ -879,6 +879,12 @@ func (w *world) finalOracle() {
 				w.viol("drain-incomplete", fmt.Sprintf("%s read %d bytes, %s wrote %d, after both backlogs reached zero", e.name, len(e.got), p.name, len(p.written)))
 			}
 		} else if len(e.gotMsgs) != len(p.msgs) {
+			pd := kcp.VerifKCPState(e.k)
+			if w.cfg.bigMsg && w.msgTooBig(p, &pd) {
+				// DESIGN O1: every fragment is acknowledged, but the message never becomes readable
+				w.viol("no-drain-msg-exceeds-rcvwnd", fmt.Sprintf("%s read %d messages, %s sent %d: a message of more fragments than the receive window (%d) never becomes readable", e.name, len(e.gotMsgs), p.name, len(p.msgs), pd.RcvWnd))
+				continue
+			}
 			w.viol("drain-incomplete", fmt.Sprintf("%s read %d messages, %s sent %d, after both backlogs reached zero", e.name, len(e.gotMsgs), p.name, len(p.msgs)))
 		}
 	}
